@@ -511,7 +511,7 @@ func parseObjectTransformation(p *parser, t token) (Node, error) {
 		p.consume(typeComma, true)
 		deletes = p.parseExpression(0)
 	}
-	p.consume(typePipe, true)
+	p.consume(typePipe, false)
 
 	return &ObjectTransformationNode{
 		Pattern: pattern,
@@ -1071,7 +1071,7 @@ func parseLambdaDefinition(p *parser, shorthand bool) (Node, error) {
 
 	p.consume(typeBraceOpen, true)
 	body := p.parseExpression(0)
-	p.consume(typeBraceClose, true)
+	p.consume(typeBraceClose, false)
 
 	lambda := &LambdaNode{
 		Body:       body,
@@ -1651,7 +1651,7 @@ func parseSort(p *parser, t token, lhs Node) (Node, error) {
 		p.consume(typeComma, true)
 	}
 
-	p.consume(typeParenClose, true)
+	p.consume(typeParenClose, false)
 
 	return &SortNode{
 		Expr:  lhs,
